@@ -320,6 +320,12 @@ def check(ctx):
     for n in range(2, N + 1):
         for E in all_digraphs(n): cases.append(("closure", E, ["exhaustive-%d" % n]))
     cases.append(("closure", [], ["empty"]))
+    # chains with parallel references: as many surplus copies as there are pairs two steps apart (a count-based stopping test would see "nothing new")
+    for n_ in (4, 5, 6, 8):
+        ch_ = [(i, i + 1) for i in range(1, n_)]
+        cases.append(("closure", ch_ + [ch_[0]] * (n_ - 2), ["chain", "parallel"]))
+        cases.append(("closure", ch_ + [ch_[i % len(ch_)] for i in range(n_ - 2)], ["chain", "parallel"]))
+        cases.append(("closure", ch_ + [ch_[-1]] * (n_ - 3), ["chain", "parallel"]))
     # two cycles joined by a path through a node that lies on neither; a ring with a tail; a figure of eight
     for E_ in ([(1, 2), (2, 1), (2, 3), (3, 4), (4, 5), (5, 4)], [(1, 2), (2, 3), (3, 1), (3, 4), (4, 5)], [(1, 2), (2, 3), (3, 1), (3, 4), (4, 5), (5, 3), (5, 6), (6, 7), (7, 8), (8, 7)]):
         cases.append(("closure", E_, ["cyclic", "bridge"]))
